@@ -1,4 +1,5 @@
 import JugModel.Props.C11
+import JugModel.Props.WorkerBridge
 #print axioms Jug.C11.failure_stores_nothing
 #print axioms Jug.C11.failed_cannot_dump
 #print axioms Jug.C11.publish_needs_normal_return
@@ -14,3 +15,4 @@ import JugModel.Props.C11
 #print axioms Jug.C11.failed_lock_no_begin
 #print axioms Jug.C11.failed_lock_persists
 #print axioms Jug.C11.cleanup_failed_reenables
+#print axioms Jug.WorkerBridge.worker_conforms
